@@ -81,6 +81,9 @@ def check_case(ctx, case):
 
 
 def qtext(rng):
+    if rng.random() < 0.15:
+        # markup characters arranged as character / entity references: still literal text
+        return ''.join(rng.choice(['&lt;', '&gt;', '&amp;', '&quot;', '&apos;', '&#124;', '&#x2d;', '&#60;', 'a', ' ', '&', ';', '&amp;&amp;']) for _ in range(rng.randint(1, 4)))
     return ''.join(rng.choice(QC) for _ in range(rng.randint(0, 6)))
 
 
